@@ -628,5 +628,9 @@ package helper
 //@ requires[C01,C15] n >= 1 && n * m <= x && x <= n * M
 //@ ensures[C01,C15] m <= x / n && x / n <= M
 
+//@ lemma ratio_unit(x real, lo real, hi real)
+//@ requires[C01,C15] lo <= x && x <= hi && lo < hi
+//@ ensures[C01,C15] 0 <= (x - lo) / (hi - lo) && (x - lo) / (hi - lo) <= 1
+
 // a valid bar: low <= close <= high
 //@ macro barok(h, l, c, i) = l[i] <= c[i] && c[i] <= h[i]
